@@ -63,6 +63,8 @@ def blocks(tier, seed):
     for rule in RULES + [0.25]:
         for part in range(4):
             out.append({"tracker": True, "rule": rule, "tier": tier, "part": part})
+    # histories across dimensions: equal-volume clusters located on grids of different dimension one after the other (fresh fork)
+    out.append({"dimseq": True})
     # the size filter also holds for refined results: smooth droplets x thresholds x a lattice of minimal radii around the droplet radius
     for gk in ("cart2", "cart1", "polar", "cyl"):
         for thr in (0.125, 0.25, 0.5, 0.75, "extrema", "mean"):
@@ -89,7 +91,15 @@ def tracker_images():
     return out
 
 
+DIMSEQ = [((14,), 12), ((4, 4), 12), ((3, 3, 2), 12), ((9,), 8), ((3, 3), 8), ((2, 2, 2), 8)]
+
+
 def cases(block):
+    if block.get("dimseq"):
+        for i, j in itertools.permutations(range(len(DIMSEQ)), 2):
+            for minr in (0.0, 1.6):
+                yield {"dimseq": [i, j], "minr": minr}
+        return
     if block.get("refined_filter"):
         for R, w in ((4.0, 1.0), (6.0, 2.0), (5.0, 0.5)):
             for k in range(-5, 8):
@@ -148,6 +158,23 @@ def run_case(case, ctx):
 
     if case.get("tracker"):
         return run_tracker(case, ctx)
+    if case.get("dimseq"):
+        from mcx import core
+
+        def one(k):
+            shape, ncell = DIMSEQ[k]
+            data = np.zeros(int(np.prod(shape)))
+            data[:ncell] = 1.0
+            grid = geom.make_grid(cart(shape, [False] * len(shape)))
+            return key(locate_droplets(ScalarField(grid, data.reshape(shape)), threshold=0.5, minimal_radius=case["minr"]))
+
+        i, j = case["dimseq"]
+        alone = core.in_fork(lambda: one(j))
+        seq = core.in_fork(lambda: (one(i), one(j))[1])
+        ctx.op(3)
+        ctx.count("equal-volume-clusters-on-grids-of-different-dimension")
+        ctx.check("C18.same-as-mask", seq == alone, {"what": "result depends on an earlier analysis on another grid", "first": DIMSEQ[i], "second": DIMSEQ[j], "alone": alone, "in_sequence": seq}, {"history": "dimension-sequence"})
+        return
     if case.get("refined_filter"):
         from droplets import DiffuseDroplet, Emulsion
 
@@ -233,6 +260,16 @@ def run_case(case, ctx):
                 ctx.check("C18.own-radial-model", ok, {"rule": rule, "got": got, "want_radius": want_r, "data": data}, tags2)
                 if g.get("r0"):
                     ctx.count("annular-grids")
+            if (a, b) == AFFINE[0] and g["kind"] == "cart" and rule in ("extrema", 0.25):
+                # the result is a geometric object: measured in another length unit (micrometre-sized / huge cells) it is the same
+                # set of droplets, positions and radii scaled by the unit - and in particular the same NUMBER of droplets
+                for unit in (1e-6, 1e5):
+                    gu = dict(g, dx=[d * unit for d in g["dx"]], origin=[o * unit for o in g["origin"]])
+                    emu = locate_droplets(ScalarField(geom.make_grid(gu), data), threshold=arg)
+                    ctx.op()
+                    gotu = key(emu)
+                    ok = len(gotu) == len(got) and all(abs(x[2] - unit * y[2]) <= 1e-9 * unit * y[2] and np.allclose(x[1], unit * np.asarray(y[1]), rtol=1e-9, atol=1e-9 * unit) for x, y in zip(gotu, got))
+                    ctx.check("C18.unit-covariance", bool(ok), {"unit": unit, "rule": rule, "got": gotu, "unit_grid": got}, tags2)
             if (a, b) == AFFINE[0]:
                 results[str(rule)] = got
             else:
@@ -314,4 +351,4 @@ def run_tracker(case, ctx):
 
 
 def expected_positive(tier):
-    return ["C18.same-as-mask", "C18.affine", "C18.filter", "C18.otsu-definition", "non-constant-image", "filter-removed-some", "filter-kept-some", "tracker-frames", "C18.own-radial-model", "annular-grids", "cluster-above-but-refined-droplet-below-the-minimal-radius", "refined-results-passing-the-filter"]
+    return ["C18.same-as-mask", "C18.affine", "C18.filter", "C18.otsu-definition", "non-constant-image", "filter-removed-some", "filter-kept-some", "tracker-frames", "C18.own-radial-model", "annular-grids", "cluster-above-but-refined-droplet-below-the-minimal-radius", "refined-results-passing-the-filter", "C18.unit-covariance", "equal-volume-clusters-on-grids-of-different-dimension"]
